@@ -48,7 +48,9 @@ type Sched struct {
 	// Filter decides which sites park (nil = all). Sites that do not park are passed through.
 	Filter func(site string) bool
 	Hung   bool
-	closed bool
+	// Crashed: a panic escaped a managed goroutine (it would have killed the process)
+	Crashed bool
+	closed  bool
 }
 
 func goid() int64 {
@@ -128,8 +130,12 @@ func (s *Sched) Go(f func()) int {
 		g := goid()
 		registry.Store(g, t)
 		defer func() {
+			r := recover()
 			registry.Delete(g)
 			s.mu.Lock()
+			if r != nil {
+				s.Crashed = true
+			}
 			t.done = true
 			t.site = ""
 			s.active--
@@ -155,8 +161,7 @@ func (s *Sched) ping() {
 }
 
 func (s *Sched) waitQuiet() bool {
-	deadline := time.NewTimer(20 * time.Second)
-	defer deadline.Stop()
+	deadline := time.Now().Add(20 * time.Second)
 	for {
 		s.mu.Lock()
 		a := s.active
@@ -164,9 +169,13 @@ func (s *Sched) waitQuiet() bool {
 		if a <= 0 {
 			return true
 		}
+		// several goroutines may wait at once (the harness and a timer goroutine that dispatched a
+		// runner), and a ping wakes only one of them: always poll as well
 		select {
 		case <-s.note:
-		case <-deadline.C:
+		case <-time.After(500 * time.Microsecond):
+		}
+		if time.Now().After(deadline) {
 			s.mu.Lock()
 			s.Hung = true
 			s.mu.Unlock()
